@@ -179,6 +179,37 @@ MANIFEST_TEXT.update({
     "C11": {"level_text": "seeded histories of configuration changes in both builds with a differential oracle against a pristine instance of the library (writable segments restored) in the same simulated OS state", "level_note": _ASSUME},
     "C17": {"level_text": "seeded schedules of 2-16 writers switching at every simulated system call; decided per record by the system calls used (one write on an O_APPEND description) and by the final file content", "level_note": _ASSUME},
 })
+_CTL_ASSUME = "trusted: the simulated file layer (open/read/write/lseek/close/fsync/rename/unlink/stat on an in-memory file system, glibc stdio on fopencookie streams), the reference classification of preload-file lines; a kill is a process death, not a power loss: everything the simulated kernel accepted is visible afterwards"
+CHECKS.update({
+    "C18": {
+        "engine": "ctl", "variants": ["ctl"], "level": "exploration", "seed": 0, "claims_sanitizer": True,
+        "quick": T(40000, 60), "thorough": T(400000, 600),
+        "rule": "one run = initial preload file + enable, status, enable, status executed by the action objects of the working tree on the simulated file layer; the first 14764 seeds enumerate: absent, and all files of 0-4 lines over a 9-line alphabet (foreign entry, comment mentioning libsnoopy.so once / twice incl. the full path, blank, own entry, own entry with trailing comment, foreign libsnoopy.so, two entries on one line, own entry sharing its line) with and without final newline; later seeds draw 0-8 lines from a 28-line grammar (trailing blanks/tabs, CR, path as prefix/suffix, indented, colon-separated ...). "
+                "non-trivial = initial file non-empty or changed; distinct = (line-class string, final newline, operations)",
+        "probes": ["exhaustive", "class_C", "class_O", "class_S", "class_F", "class_A", "class_x", "class__"],
+        "assumptions": ["no schedule or fault dimension: fault-free configuration of the C20 simulator (weak fit)", "lines classified 'ambiguous' (indented own path, own path + CR, own path not first on its line, mention only inside a trailing comment) accept both refusal and append"],
+    },
+    "C19": {
+        "engine": "ctl", "variants": ["ctl"], "level": "exploration", "seed": 0, "claims_sanitizer": True,
+        "quick": T(40000, 60), "thorough": T(400000, 600),
+        "rule": "same initial states as C18 (exhaustive <= 4 lines over the 9-line alphabet, then the 28-line grammar) with the operation sequences disable,status,enable,disable and enable,disable; token- and line-level comparison of the file before and after; "
+                "non-trivial = initial file non-empty or changed; distinct = (line-class string, final newline, operations)",
+        "probes": ["exhaustive", "class_O", "class_S", "class_F", "class_A", "class_C"],
+        "assumptions": ["no schedule or fault dimension (weak fit)"],
+    },
+    "C20": {
+        "engine": "ctl", "variants": ["ctl"], "level": "fault_enumeration", "seed": 0, "claims_sanitizer": True,
+        "quick": T(9216, 60), "thorough": T(200000, 600),
+        "rule": "families of 64 seeds = (initial content from 9 fixed + generated files incl. absent, enable or disable): slot 0 = census of the simulated system calls of the fault-free run; slots 1..n+1 = the process is killed immediately before simulated call k (k = n+1: after the last), which covers 'before and after every call'; further slots = each write-type call (open for writing, write, close, fsync, rename) failing with ENOSPC, EIO, EDQUOT or writing short; afterwards the preload file must equal the old or the model's complete new content. "
+                "non-trivial = crash or fault fired (or census); distinct = (operation, content hash, mode, crash index, fault)",
+        "probes": ["census", "crash_fired", "enospc", "write_error", "short_write"],
+    },
+})
+MANIFEST_TEXT.update({
+    "C18": {"level_text": "exhaustive over all preload files of <= 4 lines from a 9-line alphabet (x final newline, + absent), seeded beyond from a larger line grammar: result of enable is byte-identical old content or old + optional newline + path + newline as the statement allows, exit status, idempotence (second enable), status afterwards", "level_note": _CTL_ASSUME, "technique": "deterministic simulation (fault-free configuration of the crash simulator) with reference-model refinement; exhaustive small alphabet + seeded generation"},
+    "C19": {"level_text": "same state space as C18: every foreign token and every other line survives disable byte for byte and in order, untouched when absent or refused, enable-then-disable round trip", "level_note": _CTL_ASSUME, "technique": "deterministic simulation (fault-free configuration of the crash simulator) with reference-model refinement; exhaustive small alphabet + seeded generation"},
+    "C20": {"level_text": "crash-point enumeration: for each (initial content, operation) the run is killed before every simulated system call and after the last, and every write-type call fails with ENOSPC/EIO/EDQUOT or writes short; the file must then hold the complete previous or the complete new content", "level_note": _CTL_ASSUME, "technique": "deterministic simulation with fault injection: census of simulated system calls, then one run per crash point and per failing write-type call"},
+})
 for _e in list(NOT_APPLICABLE):
     if _e["property_id"] in CHECKS:
         NOT_APPLICABLE.remove(_e)
